@@ -247,7 +247,7 @@ func treeFamily(raw json.RawMessage) Result {
 				continue
 			}
 			o1, e1 := textwire.EvaluateString(string(content), data)
-			if (e1 == nil) != (e2 == nil) || o1 != o2 {
+			if (e1 == nil) != (e2 == nil) || o1 != o2 || (e1 != nil && e1.Error() != e2.Error()) {
 				res.Status, res.Kind = "viol", "evalfile-differs"
 				res.Msg = fmt.Sprintf("EvaluateFile(%s) = (%q, %v), EvaluateString(content) = (%q, %v)", op.Name, o2, e2, o1, e1)
 				return res
